@@ -147,8 +147,8 @@ for _p in patterns(4):
 for _p in patterns(3):
     ob('registry/class3/' + _p, marks=['resolved-after-register'], budget=(60, 200),
        bounds='as registry/class with the three-level hierarchy A > B > C, sequence %s' % _p)(_mk_class(_p, True))
-for _p in patterns(5):
-    ob('registry/class/' + _p, marks=['resolved-after-register'], budget=(60, 400), thorough_only=True,
+for _p in [q for q in patterns(5) if q.count('R') <= 3]:
+    ob('registry/class/' + _p, marks=['resolved-after-register'], budget=(60, 500), thorough_only=True,
        bounds='as registry/class, sequence %s' % _p)(_mk_class(_p, False))
 
 
@@ -158,7 +158,8 @@ KINDS = ['class', 'attr', 'meta', 'detector', 'two', 'class+attr', 'class+meta',
 def _mk_criteria(pattern, first_kind):
     def h(V):
         reg = TypeRegistry('t', cache=True)
-        history(V, reg, pattern, KINDS, [A, B], [A, B, C, X, XM], first_kind=first_kind)
+        history(V, reg, pattern, KINDS if len(pattern) <= 3 else ['class', 'attr', 'meta', 'class+attr'], [A, B], [A, B, C, X, XM],
+                first_kind=first_kind)
     return h
 
 
